@@ -1,22 +1,27 @@
 (* Props/C15.v — Maildir state survives restart and crashes without UID damage.
    Only statements, each closed by [exact] and followed by Print Assumptions.
 
-   Vocabulary (MaildirFS/Spec.v): [serves m f v uid key fl c] — a server
-   started on filesystem m serves in folder f, under UIDVALIDITY v, message
-   uid from the file with maildir key [key], flag letters fl, content c;
-   [legal_ops_b lay m l] — every operation of l is, in the state it is
-   applied to, one of the kinds of operation the backend performs (decided by
-   MaildirFS/Legal.v and evaluated on every real trace by the correspondence
-   run); [after_crash lay m l k] — the filesystem left by a process killed
-   after the first k operations of l; [touched l key] — some operation of l
-   renames or unlinks the file with that key (STORE, MOVE, EXPUNGE of that
-   very message). *)
+   Vocabulary (MaildirFS/Spec.v, Ops.v, Legal.v, CrashProofs.v):
+   [hist_ops lay m sel h] — the filesystem operations of the history h of
+   commands (SELECT/EXAMINE, APPEND, STORE, COPY, MOVE, EXPUNGE, CHECK, NOOP,
+   CLOSE, CREATE, RENAME, SUBSCRIBE, UNSUBSCRIBE) started on filesystem m with
+   selection sel; [after_crash lay m l k] — the filesystem left by a process
+   killed after the first k operations of l; [executed lay m l k] — the
+   operations executed by then; [serves m f v uid key fl c] — a server started
+   on m serves in folder f, under UIDVALIDITY v, message uid from the file with
+   maildir key [key], flag letters fl, content c; [touched l key] — some
+   operation of l renames or unlinks the file with that key (a STORE, MOVE or
+   EXPUNGE of that very message); [moved_names lay l f] — the name folder f has
+   after the directory renames of l; [Inv] — every uid list on disk is a
+   completely written well-formed one respecting its counter, maildir keys are
+   unique, delivered files have recordable names, one entry per path (decided
+   by [inv_b] on every directory snapshot of the real backend). *)
 From PV Require Import Base.Prelude Base.Decimal MaildirFS.FS MaildirFS.UidList MaildirFS.Ops
   MaildirFS.Spec MaildirFS.Legal MaildirFS.Examples
   MaildirFS.UidListProofs MaildirFS.DurabilityProofs MaildirFS.LegalProofs MaildirFS.CrashProofs
-  MaildirFS.CommandProofs.
+  MaildirFS.CommandProofs MaildirFS.RecoverProofs.
 
-(* a completely written uid list is always readable: parse (print u) = u *)
+(* ---- the text formats: a completely written file is always readable *)
 Theorem C15_uidlist_roundtrip : forall u,
   wf_uidl u = true -> parse_uidl (print_uidl u) = Ok u.
 Proof. exact uidl_roundtrip. Qed.
@@ -27,37 +32,50 @@ Theorem C15_subscriptions_roundtrip : forall names,
 Proof. exact subs_roundtrip. Qed.
 Print Assumptions C15_subscriptions_roundtrip.
 
-(* the decision procedure used on the real traces is sound *)
-Theorem C15_legal_b_sound : forall m o, legal_b m o = true -> legal m o.
-Proof. exact legal_b_sound. Qed.
-Print Assumptions C15_legal_b_sound.
+(* ---- all histories x all crash prefixes *)
+(* every operation of every history is of a legal kind where it is applied *)
+Theorem C15_history_legal : forall lay h m sel,
+  Inv m -> legal_ops_b lay m (hist_ops lay m sel h) = true.
+Proof. exact hist_ops_legal. Qed.
+Print Assumptions C15_history_legal.
 
-(* control files are never left unreadable, at any crash point: every uid list
-   on disk parses to a list whose uids are distinct and below its counter;
-   and a maildir key never names two delivered files *)
-Theorem C15_control_files_readable : forall lay m l k,
-  Inv m -> legal_ops_b lay m l = true -> Inv (after_crash lay m l k).
-Proof. exact crash_inv. Qed.
+(* control files are never left unreadable: whatever the history and the kill
+   point, the invariant holds on what is left *)
+Theorem C15_control_files_readable : forall lay m sel h k,
+  Inv m -> Inv (after_crash lay m (hist_ops lay m sel h) k).
+Proof. exact hist_crash_inv. Qed.
 Print Assumptions C15_control_files_readable.
 
-(* every message served before (in particular every acknowledged APPEND /
-   COPY / MOVE result and every acknowledged flag change) is served after a
-   kill at any point with the same UIDVALIDITY, uid, flags and content, unless
-   an executed operation renames or removes that message's own file *)
-Theorem C15_acked_messages_survive : forall lay m l k f v uid key fl c,
-  legal_ops_b lay m l = true ->
-  serves m f v uid key fl c -> ~ touched (crash k l) key ->
-  serves (after_crash lay m l k) f v uid key fl c.
-Proof. exact crash_serves. Qed.
+(* every message served before the history starts (m is any state satisfying
+   Inv, in particular the state after any earlier history: every acknowledged
+   APPEND / COPY / MOVE result and flag change) is served after a kill at any
+   point with the same UIDVALIDITY, uid, flags and content, in its folder under
+   the name the folder has by then, unless an executed operation renames or
+   removes that message's own file *)
+Theorem C15_acked_messages_survive : forall lay m sel h k f v uid key fl c,
+  Inv m -> serves m f v uid key fl c -> ~ touched (crash k (hist_ops lay m sel h)) key ->
+  serves (after_crash lay m (hist_ops lay m sel h) k)
+         (moved_names lay (executed lay m (hist_ops lay m sel h) k) f) v uid key fl c.
+Proof. exact hist_crash_serves. Qed.
 Print Assumptions C15_acked_messages_survive.
 
+(* the state after any completed history satisfies Inv again (so the theorems
+   chain over successive histories) *)
+Theorem C15_history_reaches_inv : forall lay m l,
+  Inv m -> legal_ops_b lay m l = true -> Inv (fst (apply_ops lay m l)).
+Proof. exact apply_ops_inv. Qed.
+Print Assumptions C15_history_reaches_inv.
+
 (* no uid is assigned to a different message: between two crash points
-   j <= k of one run a folder keeps its UIDVALIDITY, its next-uid counter never
-   decreases and exceeds every uid recorded, and a uid recorded at both points
-   names the same maildir key *)
-Theorem C15_uid_never_reassigned : forall lay m l j k f u u' uid key key',
+   j <= k of one run a folder (under its later name phi f; phi is the identity
+   when the run renames no directory) keeps its UIDVALIDITY, its next-uid
+   counter never decreases and exceeds every uid recorded, and a uid recorded
+   at both points names the same maildir key *)
+Theorem C15_uid_never_reassigned : forall lay m l j k,
   Inv m -> legal_ops_b lay m l = true -> (j <= k)%nat ->
-  uidl_at (after_crash lay m l j) f u -> uidl_at (after_crash lay m l k) f u' ->
+  exists phi, ((forall o, In o l -> forall a b, o <> ORenameDir a b) -> forall f, phi f = f) /\
+  forall f u u' uid key key',
+  uidl_at (after_crash lay m l j) f u -> uidl_at (after_crash lay m l k) (phi f) u' ->
   recorded u uid key -> recorded u' uid key' ->
   key = key' /\ u_val u' = u_val u /\ (u_next u <= u_next u')%N /\ (uid < u_next u)%N.
 Proof. exact crash_uid_one_key. Qed.
@@ -65,54 +83,103 @@ Print Assumptions C15_uid_never_reassigned.
 
 (* ... and the file a key names is never rewritten by a legal operation *)
 Theorem C15_files_never_rewritten : forall lay m o m' f key i c f' i' c',
-  Inv m -> legal m o -> apply_op lay m o = Some m' ->
+  Inv m -> legal lay m o -> apply_op lay m o = Some m' ->
   file_at m f key i c -> file_at m' f' key i' c' -> c = c'.
 Proof. exact legal_step_content. Qed.
 Print Assumptions C15_files_never_rewritten.
 
-(* ---- the model's APPEND (any number of messages), in every state with a
-   readable uid list, fresh distinct keys and printable names *)
-(* its operation list is legal: the theorems above apply to it *)
-Theorem C15_append_ops_legal : forall lay f s msgs, live s = true -> forall m u,
-  lookup m (PCtl f CUidl) = Some (File (Text (print_uidl u))) ->
-  wf_uidl u = true -> uids_ok u ->
-  (forall a, In a msgs -> key_unused m (a_key a) /\ wf_amsg a = true) ->
-  NoDup (map a_key msgs) ->
-  legal_ops_b lay m (append_ops f s u msgs) = true.
-Proof. exact append_ops_legal. Qed.
-Print Assumptions C15_append_ops_legal.
+(* ---- what an acknowledgement means, command by command (all operations of
+   the command executed; [o_ack = AOk]: the model answers OK) *)
+Theorem C15_append_acked : forall lay m sel f msgs m',
+  Inv m -> let o := run_cmd lay m sel (CAppend f msgs) in
+  o_ack o = AOk -> apply_ops lay m (o_ops o) = (m', true) ->
+  exists u, uidl_at m f u /\
+    forall d, In d (append_delivers u msgs) ->
+    let '(uid, k, i, c) := d in serves m' f (u_val u) uid k (flags_of_info i) c.
+Proof. exact cmd_append_acked. Qed.
+Print Assumptions C15_append_acked.
 
-(* an acknowledged APPEND (all its operations done) serves every one of its
-   messages under the uid announced for it (next, next+1, ...), with the
-   requested system flags and its content *)
-Theorem C15_append_acked_served : forall lay f s msgs m u m',
-  live s = true ->
-  apply_ops lay m (append_ops f s u msgs) = (m', true) ->
-  NoDup (map a_key msgs) ->
-  lookup m (PCtl f CUidl) = Some (File (Text (print_uidl u))) ->
-  wf_uidl u = true -> uids_ok u -> (forall a, In a msgs -> wf_amsg a = true) ->
-  forall j a, nth_error msgs j = Some a ->
-  serves m' f (u_val u) (u_next u + N.of_nat j)%N (a_key a)
-         (flags_of_info (info_of_letters (a_flags a))) (a_cid a).
-Proof. exact append_acked_served. Qed.
-Print Assumptions C15_append_acked_served.
+(* the j-th message of an APPEND is announced and served under uid next+j *)
+Theorem C15_append_uids : forall msgs u j a, nth_error msgs j = Some a ->
+  nth_error (append_delivers u msgs) j
+  = Some ((u_next u + N.of_nat j)%N, a_key a, info_of_letters (a_flags a), a_cid a).
+Proof. exact append_delivers_nth. Qed.
+Print Assumptions C15_append_uids.
 
-(* killed after any k of its operations: the invariant holds and everything
-   served before, in any folder, is still served identically *)
-Theorem C15_append_crash_safe : forall lay f s msgs m u k,
-  live s = true -> Inv m ->
-  lookup m (PCtl f CUidl) = Some (File (Text (print_uidl u))) ->
-  wf_uidl u = true -> uids_ok u ->
-  (forall a, In a msgs -> key_unused m (a_key a) /\ wf_amsg a = true) ->
-  NoDup (map a_key msgs) ->
-  let mk := after_crash lay m (append_ops f s u msgs) k in
-  Inv mk /\ (forall g v uid key fl c, serves m g v uid key fl c -> serves mk g v uid key fl c).
-Proof. exact append_crash_safe. Qed.
-Print Assumptions C15_append_crash_safe.
+Theorem C15_copy_acked : forall lay m f ro uids g names m',
+  Inv m -> let o := run_cmd lay m (Some (f, ro)) (CCopy uids g names) in
+  o_ack o = AOk -> apply_ops lay m (o_ops o) = (m', true) ->
+  exists us ug, uidl_at m f us /\ uidl_at m g ug /\
+    forall d, In d (copy_delivers us (files_of m f) ug uids names) ->
+    let '(uid, k, i, c) := d in
+    (u_next ug <= uid)%N /\ serves m' g (u_val ug) uid k (flags_of_info i) c.
+Proof. exact cmd_copy_acked. Qed.
+Print Assumptions C15_copy_acked.
 
-(* open finding C15-F1: a kill between taking and releasing a lock leaves the
-   lock file; a restarted server refuses the folder (NO [TIMEOUT]) although a
-   message had been acknowledged; it is served once the lock has expired *)
+Theorem C15_move_acked : forall lay m f uids g tmps m',
+  Inv m -> f <> g -> NoDup uids ->
+  let o := run_cmd lay m (Some (f, false)) (CMove uids g tmps) in
+  o_ack o = AOk -> apply_ops lay m (o_ops o) = (m', true) ->
+  exists us ug, uidl_at m f us /\ uidl_at m g ug /\
+    (NoDup (map r_key (u_recs us)) ->
+     forall d, In d (move_delivers us (files_of m f) ug uids tmps) ->
+     let '(uid, k, i, c) := d in serves m' g (u_val ug) uid k (flags_of_info i) c).
+Proof. exact cmd_move_acked. Qed.
+Print Assumptions C15_move_acked.
+
+Theorem C15_store_acked : forall lay m f uids mode letters m',
+  Inv m -> NoDup uids ->
+  let o := run_cmd lay m (Some (f, false)) (CStore uids mode letters) in
+  o_ack o = AOk -> apply_ops lay m (o_ops o) = (m', true) ->
+  exists u, uidl_at m f u /\
+    (NoDup (map r_key (u_recs u)) ->
+     forall uid rec x, In uid uids -> locate u (files_of m f) uid = Some (rec, x) ->
+     serves m' f (u_val u) uid (m_key x)
+            (flags_of_info (new_info mode letters (m_info x))) (m_cid x)).
+Proof. exact cmd_store_acked. Qed.
+Print Assumptions C15_store_acked.
+
+Theorem C15_create_acked : forall lay m sel f val guid tmp m',
+  let o := run_cmd lay m sel (CCreate f val guid tmp) in
+  o_ack o = AOk -> apply_ops lay m (o_ops o) = (m', true) ->
+  folder_ok m' f = true
+  /\ uidl_at m' f {| u_val := val; u_next := 1; u_guid := guid; u_recs := [] |}.
+Proof. exact cmd_create_acked. Qed.
+Print Assumptions C15_create_acked.
+
+Theorem C15_subscribe_acked : forall lay m sel n tmp m',
+  let o := run_cmd lay m sel (CSubscribe n tmp) in
+  apply_ops lay m (o_ops o) = (m', true) ->
+  wf_subs (add_name n (recover_subs m)) = true ->
+  recover_subs m' = add_name n (recover_subs m).
+Proof. exact cmd_subscribe_acked. Qed.
+Print Assumptions C15_subscribe_acked.
+
+(* ---- [serves] is what the executable restart view serves *)
+Theorem C15_serves_is_recovered : forall m f v uid k fl c,
+  Inv m -> folder_ok m f = true -> exists_ m (PCtl f CUidlLock) = false ->
+  serves m f v uid k fl c -> view_has (recover_folder m f) v uid k fl c.
+Proof. exact serves_recover. Qed.
+Print Assumptions C15_serves_is_recovered.
+
+Theorem C15_recovered_is_served : forall m f u nx ms s,
+  Inv m -> ready m f = Some u -> recover_folder m f = VServed (Some (u_val u)) nx ms ->
+  In s ms -> serves m f (u_val u) (s_uid s) (s_key s) (s_flags s) (s_cid s).
+Proof. exact recover_serves. Qed.
+Print Assumptions C15_recovered_is_served.
+
+(* ---- the decision procedures evaluated on the real traces are sound *)
+Theorem C15_legal_b_sound : forall lay m o, legal_b lay m o = true -> legal lay m o.
+Proof. exact legal_b_sound. Qed.
+Print Assumptions C15_legal_b_sound.
+
+Theorem C15_inv_b_sound : forall m, inv_b m = true -> Inv m.
+Proof. exact inv_b_sound. Qed.
+Print Assumptions C15_inv_b_sound.
+
+(* ---- open finding C15-F1: a kill between taking and releasing a lock leaves
+   the lock file; a restarted server refuses the folder (NO [TIMEOUT]) although
+   a message had been acknowledged; it is served once the lock has expired *)
 Theorem C15_refuted_stale_lock :
   Nat.leb ex_first_len 13 = true
   /\ recover_folder (ex_state 13) [] = VLocked
@@ -120,8 +187,7 @@ Theorem C15_refuted_stale_lock :
 Proof. exact stale_lock_witness. Qed.
 Print Assumptions C15_refuted_stale_lock.
 
-(* the hypotheses above are satisfiable: the example history is legal *)
-Theorem C15_example_legal :
-  legal_ops_b LPlus ex_fs0 ex_ops = true /\ length ex_ops = 34%nat.
-Proof. exact ex_legal. Qed.
-Print Assumptions C15_example_legal.
+(* the hypotheses are satisfiable: the example store satisfies the invariant *)
+Theorem C15_example_inv : inv_b ex_fs0 = true /\ length ex_ops = 34%nat.
+Proof. exact ex_inv. Qed.
+Print Assumptions C15_example_inv.
